@@ -32,7 +32,7 @@ type FakeConn struct {
 	Closed           bool
 	CloseCalls       int
 	WritesAfterClose int
-	FailWriteAt      int // the k-th Write (1-based) fails; 0: never
+	FailWriteAt      int // the k-th Write (1-based) and every later one fail; 0: never
 	nWrites          int
 	Observe          func(b []byte) // called with the caller's slice before it is copied
 }
@@ -47,7 +47,7 @@ func (f *FakeConn) Write(b []byte) (int, error) {
 		return 0, net.ErrClosed
 	}
 	f.nWrites++
-	if f.FailWriteAt > 0 && f.nWrites == f.FailWriteAt {
+	if f.FailWriteAt > 0 && f.nWrites >= f.FailWriteAt {
 		return 0, ErrInjected
 	}
 	if f.Observe != nil {
@@ -194,6 +194,7 @@ type Cfg struct {
 	Spy               bool `json:"spy,omitempty"`
 	Observe           bool `json:"observe,omitempty"` // call track.Use at conn.Write and in the callbacks (C11; linear in the number of freed buffers)
 	FailWriteAt       int  `json:"fail_write_at,omitempty"`
+	Move              bool `json:"move,omitempty"` // the allocator moves a buffer that has to grow (like mempool.NewAligned)
 	PanicAtEvent      int  `json:"panic_at_event,omitempty"` // the k-th callback (1-based) panics
 	ExecuteFalse      bool `json:"execute_false,omitempty"`  // Conn.Execute refuses every job (closed nbio.Conn)
 }
@@ -239,6 +240,7 @@ func NewEndpoint(cfg Cfg) *Endpoint {
 	logOnce.Do(func() { logging.SetLogger(theLogger) })
 	e := &Endpoint{Cfg: cfg, Fake: &FakeConn{FailWriteAt: cfg.FailWriteAt}}
 	e.T = track.New(track.Policy(cfg.Policy))
+	e.T.MoveOnGrow = cfg.Move
 	var alloc mempool.Allocator = e.T
 	if cfg.Spy {
 		e.Spy = &Spy{A: e.T}
@@ -313,7 +315,17 @@ func NewEndpoint(cfg Cfg) *Endpoint {
 		if cfg.ExecuteFalse {
 			return false
 		}
-		f()
+		// like nbio.Conn.Execute, the executor recovers and logs a panicking job
+		func() {
+			defer func() {
+				if x := recover(); x != nil {
+					buf := make([]byte, 2048)
+					buf = buf[:runtime.Stack(buf, false)]
+					logging.Error("conn execute failed: %v\n%s", x, buf)
+				}
+			}()
+			f()
+		}()
 		if cfg.CloseAfterHandler && e.Fake.Closed && !e.Cleaned {
 			e.Clean(nil)
 		}
